@@ -33,16 +33,22 @@ def check(run, prog, tier):
                     "dataclass equality is field equality"]
     sd = SD(run, prog)
     sd.strict_guards = False  # how malformed input is rejected is C02/C03's business, not this property's
-    sd.entry_writer("D1")
-    sd.entry_reader("D1", guards_rule="D1")
-    sd.option_header("D1")
+    with run.part("entry codec"):
+        sd.entry_writer("D1")
+        sd.entry_reader("D1", guards_rule="D1")
+    with run.part("option header"):
+        sd.option_header("D1")
     reg = sd.registered()
-    sd.option_bodies("D1", reg)
-    sd.unknown_option("D1")
-    sd.config_option("D4", "D4")
-    sd.sd_header_writer("D1", flags_rule="D1")
-    sd.sd_header_reader("D1", flags_rule="D1")
-    range_closure(sd, "D2")
+    with run.part("option bodies"):
+        sd.option_bodies("D1", reg)
+        sd.unknown_option("D1")
+    with run.part("configuration option"):
+        sd.config_option("D4", "D4")
+    with run.part("SD header codec"):
+        sd.sd_header_writer("D1", flags_rule="D1")
+        sd.sd_header_reader("D1", flags_rule="D1")
+    with run.part("range closure"):
+        range_closure(sd, "D2")
     # unknown transport protocol numbers are kept as plain integers (not rejected)
     n = 0
     for q in sorted(reg):
